@@ -97,7 +97,7 @@ def munu_to_radec(munu, icrs_frame):
     yy = sinmu * cosnu * cosi - sinnu * sini
     zz = sinmu * cosnu * sini + sinnu * cosi
     ra = ac.Angle(np.arctan2(yy, xx), unit=u.radian) + munu.node
-    dec = ac.Angle(np.arcsin(zz), unit=u.radian)
+    dec = ac.Angle(np.arcsin(np.clip(zz, -1.0, 1.0)), unit=u.radian)
     # if 'phi' in kwargs:
     #     phi = np.rad2deg(np.arctan2(cosmu * sini,
     #         (-sinmu * sinnu * sini + cosnu * cosi)*cosnu))
@@ -146,7 +146,7 @@ def radec_to_munu(icrs_frame, munu):
     y2 = y1 * cosi + z1 * sini
     z2 = -y1 * sini + z1 * cosi
     mu = ac.Angle(np.arctan2(y2, x2), unit=u.radian) + munu.node
-    nu = ac.Angle(np.arcsin(z2), unit=u.radian)
+    nu = ac.Angle(np.arcsin(np.clip(z2, -1.0, 1.0)), unit=u.radian)
     # if 'phi' in kwargs:
     #     sinnu = np.sin(np.deg2rad(nu))
     #     cosnu = np.cos(np.deg2rad(nu))
